@@ -23,7 +23,7 @@ let run (line : string) : string =
       let sl = b01 (segments_link (cfg_compact true) p toks) ^ b01 (segments_link (cfg_pretty tab true true) p toks)
                ^ b01 (segments_link (cfg_pretty [] false true) p toks) in
       let ic = b01 (idents_covered (cfg_compact true) p toks) ^ b01 (idents_covered (cfg_pretty tab true true) p toks) in
-      Printf.sprintf "errs=%d m=%s wf=%s mL=%s wfL=%s tp=%s ct=%s pc=%s sl=%s ic=%s lt=%s un=%s rt=%s ne=%s rp=%s ts=%s id=%s" (min 1 (List.length r.pr_errors)) (b01 (m_program p toks)) (b01 (wf_program p))
+      Printf.sprintf "errs=%d m=%s wf=%s mL=%s wfL=%s tp=%s ct=%s pc=%s sl=%s ic=%s lt=%s un=%s rt=%s ne=%s rp=%s ts=%s id=%s bt=%s" (min 1 (List.length r.pr_errors)) (b01 (m_program p toks)) (b01 (wf_program p))
         (b01 (m_programL p toks)) (b01 (wf_programL p)) (b01 (token_preserving p toks)) (b01 ct) (b01 pc) sl ic (b01 (match toks with t :: _ -> t.t_comments <> [] | [] -> false))
         (let un cfg = (compile cfg p).r_code = (run_wops cfg (write_program p)).w_buf in b01 (un (cfg_pretty tab true true)) ^ b01 (un (cfg_pretty [] false true)))
         (match reparse_compact p with
@@ -46,3 +46,11 @@ let run (line : string) : string =
               | None -> "N"
               | Some r2 -> b01 ((compile cfg r2.pr_program).r_code = (compile cfg p).r_code)) in
          idem (cfg_pretty tab true false) ^ idem (cfg_pretty [] true false) ^ idem (cfg_compact false))
+        (let bt cfg = match reparse cfg p with
+           | None -> "N"
+           | Some r2 ->
+               let show l = String.concat " | " (List.map (fun cs -> "[" ^ String.concat ";" (List.map (fun c -> "'" ^ Util.string_of_str c ^ "'") cs) ^ "]") l) in
+               if Sys.getenv_opt "BTDEBUG" <> None && norm_boundaries (boundary_trivia r2.pr_program) <> norm_boundaries (boundary_trivia p) then
+                 Printf.eprintf "SRC %s\nOUT %s\nCODE %s\n" (show (boundary_trivia p)) (show (boundary_trivia r2.pr_program)) (Util.string_of_str (compile cfg p).r_code);
+               b01 (norm_boundaries (boundary_trivia r2.pr_program) = norm_boundaries (boundary_trivia p)) in
+         bt (cfg_pretty tab true false) ^ bt (cfg_pretty [] false false))
